@@ -228,7 +228,8 @@ def chunk_plan(tier, nspecs):
     campaign repeated on fresh specifications, processed and cached chunk by chunk (one chunk is a few hundred MB of cases)"""
     if tier == "quick":
         return [(nspecs or 40, True, 8)]
-    return [(nspecs or 40, True, 16)] + [(60, False, 12)] * 9
+    # (6 chunks: with the round-5 to round-9 strata a chunk costs about 10 minutes; 10 chunks did not finish within 2.5 h)
+    return [(nspecs or 40, True, 16)] + [(60, False, 12)] * 5
 
 
 def campaign_chunks(tier, seed, nspecs=None, opts=None, tag="t2", with_clone=True):
